@@ -5,7 +5,7 @@ import random
 from concretise import NONE, MISSING
 
 NTK, NFK = 3, 3
-NT, NM, NS, NN = 10, 4, 6, 6      # instants, measurements, tag-value ranks, field-value ranks
+NT, NM, NS, NN = 30, 4, 6, 6      # instants, measurements, tag-value ranks, field-value ranks
 
 
 class Gen:
@@ -227,8 +227,9 @@ class Gen:
                 ops.append(a)
         return ops
 
-    def negfield(self, a, p=0.2):
+    def negfield(self, a, p=None):
         """conjoin a negated field comparison: such queries are answered by a scan even when the index is valid"""
+        p = self.focus.get("negfield", 0.2) if p is None else p
         if "q" in a and self.r.random() < p:
             nf = {"k": "not", "a": {"k": "field", "key": self.r.randrange(1, self.nfk + 1), "key2": 0, "mf": 0,
                                    "op": self.r.choice(["eq", "lt", "ge"]), "v": self.r.randrange(NN), "tf": 0}}
@@ -251,6 +252,39 @@ class Gen:
         if "q" in a and self.r.random() < p:
             a["adapt"] = self.r.randrange(1 << 20)
         return a
+
+    def batch_scenario(self):
+        """in-order inserts, then ONE batch that is newer than everything stored but unordered within itself, then
+        reads / removes / updates selected by time comparisons around the batch, then more of the same"""
+        r = self.r
+        ops, t = [], r.randrange(0, 4)
+        for _ in range(r.choice([0, 1, 2, 3])):
+            ops.append({"op": "insert", "p": self.point(t), "m": NONE, "compact": 0})
+            t += r.choice([0, 1, 2])
+        for _round in range(r.choice([1, 2])):
+            n = r.choice([2, 3, 3, 4])
+            ts = [t + i for i in range(n)]
+            while n > 1 and ts == sorted(ts):
+                r.shuffle(ts)
+            ops.append({"op": "insert_multiple", "ps": [self.point(x) for x in ts], "m": self.meas(0.8), "bad": 0})
+            for _ in range(r.choice([1, 2, 3])):
+                tq = {"k": "time", "key": 0, "key2": 0, "mf": 0, "op": r.choice(["lt", "le", "gt", "ge", "eq", "ne"]), "v": t + r.randrange(n), "tf": 0}
+                kind = r.choice(["count", "search", "remove", "update", "get", "select", "get_timestamps"])
+                if kind == "remove":
+                    ops.append({"op": "remove", "q": tq, "m": NONE})
+                elif kind == "update":
+                    ops.append({"op": "update", "q": tq, "m": NONE, "u": self.update(), "fail": 0})
+                elif kind == "search":
+                    ops.append({"op": "search", "q": tq, "m": NONE, "sorted": r.randrange(2)})
+                elif kind == "select":
+                    ops.append({"op": "select", "q": tq, "m": NONE, "keys": [{"k": "time", "key": 0}], "scalar": 1})
+                elif kind == "get_timestamps":
+                    ops.append({"op": "get_timestamps", "m": NONE})
+                else:
+                    ops.append({"op": kind, "q": tq, "m": NONE})
+            ops.append({"op": "all", "m": NONE, "sorted": 0})
+            t += n + r.choice([0, 1])
+        return ops
 
     def battery(self, k=5):
         return [self.query(self.r.choice([0, 0, 1, 2])) for _ in range(k)]
